@@ -1,6 +1,6 @@
 /-
 C18 — routing is deterministic: patterns invert, ambiguity is detected.
-Model: `Model/Route.lean` (the code as it is today). Strings are their UTF-8 bytes (`List Nat`, bytes < 256).
+Model: `Model/Route.lean` (the code after the three `fix:` commits F12, F12b, F12c; see fixes/*.md). Strings are their UTF-8 bytes (`List Nat`, bytes < 256).
 Quantifiers: every pattern value `Pat` (scheme?, absolute, segments) subject to the stated decidable side
 conditions, every parameter map, every URI `(scheme?, path)`, every byte string.
 -/
@@ -40,40 +40,24 @@ example : exPat.rtWf = true ∧ exPat.boundBy exMap = true ∧
 
 /-! ## … and through the route string (`apply` then `unapply_str`) -/
 
-/-- Full statement: for every pattern the URI parser can read back (`strWf`) and every map of non-empty strings,
-`unapply_str(apply(m)) = m`. **False of the current code** (F12b): see `C18_roundtrip_str_fails`. -/
-def C18_roundtrip_str : Prop :=
-  ∀ (p : Pat) (m : KV), p.strWf = true → p.boundBy m = true →
-    ∃ route, p.apply m = .ok route ∧ p.unapplyStr route = some (p.params.map fun n => (n, valOf m n))
+/-- Table fact behind it, re-checked against the source on every run: every ASCII byte is either escaped by `apply`
+or accepted raw by the URI parser's `is_path_char` (before the F12b fix `~` was neither). -/
+theorem C18_every_byte_survives : ∀ b, b < 128 → (shouldEncode b || pathChar b) = true := all_ascii_safe
 
-/-- F12b: `/:x` with `x = "a~b"` gives the route `/a~b`, which `RouteUri::from_str` reads as the path `/a`
-(`~` is not a path character and unparsed trailing input is ignored): the match binds `x = "a"`. -/
-theorem C18_roundtrip_str_fails : ¬ C18_roundtrip_str := by
-  intro h
-  obtain ⟨route, h1, h2⟩ := h ⟨none, true, [.param [120]]⟩ [([120], [97, 126, 98])] (by decide) (by decide)
-  have hr : route = [47, 97, 126, 98] := by
-    have : (Pat.apply ⟨none, true, [.param [120]]⟩ [([120], [97, 126, 98])]).toOption = some [47, 97, 126, 98] := by
-      decide
-    rw [h1] at this
-    simpa [Except.toOption] using this
-  subst hr
-  exact absurd h2 (by decide)
-
-/-- The table fact behind it, re-checked against the source on every run: `~` is the only ASCII byte that `apply`
-leaves unescaped and the URI parser does not accept in a path. -/
-theorem C18_only_tilde_unsafe : ∀ b, b < 128 → ((shouldEncode b || pathChar b) = false ↔ b = 126) := by decide
-
-/-- What holds today: the round trip through the string is exact when no parameter value contains such a byte. -/
-theorem C18_roundtrip_str_partial (p : Pat) (m : KV) (hwf : p.strWf = true) (hb : p.boundBy m = true)
-    (hsafe : p.safeIn m = true) :
+/-- For every pattern the URI parser can read back (`strWf`) and every map of non-empty strings,
+`unapply_str(apply(m)) = m`. -/
+theorem C18_roundtrip_str (p : Pat) (m : KV) (hwf : p.strWf = true) (hb : p.boundBy m = true) :
     ∃ route, p.apply m = .ok route ∧ p.unapplyStr route = some (p.params.map fun n => (n, valOf m n)) := by
   have hcore := unapply_apply_core p m (strWf_rtWf p hwf) hb
   refine ⟨_, hcore.1, ?_⟩
   unfold Pat.unapplyStr
-  rw [parseUri_apply p m hwf hb hsafe]
+  rw [parseUri_apply p m hwf hb]
   exact hcore.2 p.scheme (Or.inl rfl)
 
-example : exPat.strWf = true ∧ exPat.safeIn exMap = true := by decide
+example : exPat.strWf = true := by decide
+
+/-- Regression for F12b: `/:x` with `x = "a~b"` round-trips. -/
+example : (Pat.mk none true [.param [120]]).unapplyStr [47, 97, 126, 98] = some [([120], [97, 126, 98])] := by decide
 
 /-! ## Matching is a function of the URI; parameters are never empty -/
 
@@ -111,82 +95,49 @@ example : (Pat.mk none true [.lit [97], .param [105, 100]]).unapplyUri none [47,
 
 /-! ## Every parameter gets its own binding -/
 
-/-- Full statement: a successful match of an accepted pattern yields one binding per parameter.
-**False of the current code** (F12c): see `C18_one_binding_per_param_fails`. -/
-def C18_one_binding_per_param : Prop :=
-  ∀ (p : Pat) (sch : Option Bytes) (path : Bytes) (r : KV), p.structOk = true →
-    p.unapplyUri sch path = some r → r.length = p.params.length
-
-/-- F12c: `/:id/:%69d` is accepted (`parse` compares the raw names) but `unapply` keys the result by the decoded
-names, so `/a/b` yields the single binding `id = "b"`; the value of the first parameter is lost. -/
-theorem C18_one_binding_per_param_fails : ¬ C18_one_binding_per_param := by
-  intro h
-  have := h ⟨none, true, [.param [105, 100], .param [37, 54, 57, 100]]⟩ none [47, 97, 47, 98] [([105, 100], [98])]
-    (by decide) (by decide)
-  exact absurd this (by decide)
-
-example : (parsePattern [47, 58, 105, 100, 47, 58, 37, 54, 57, 100]).toOption =
-    some ⟨none, true, [.param [105, 100], .param [37, 54, 57, 100]]⟩ := by decide
-
-/-- What holds today: one binding per parameter when the *decoded* names are pairwise different (in particular
-when no name contains a percent escape). -/
-theorem C18_one_binding_per_param_partial (p : Pat) (sch : Option Bytes) (path : Bytes) (r : KV)
+theorem one_binding_of_nodup (p : Pat) (sch : Option Bytes) (path : Bytes) (r : KV)
     (hnd : nodupB (p.params.map decodeLossy) = true) (h : p.unapplyUri sch path = some r) :
     r.length = p.params.length := by
   obtain ⟨parts, hp, _⟩ := unapplyUri_parts h
   have := unapplyParts_length p.segs parts [] r hp (nodupB_nodup _ hnd) (by simp)
   simpa [Pat.params, segParams] using this
 
-example : nodupB (exPat.params.map decodeLossy) = true := by decide
+/-- A successful match of an accepted pattern yields exactly one binding per parameter (`structOk` is what
+`RoutePattern::parse` guarantees, see `C18_parse_struct`: names differ even after percent-decoding). -/
+theorem C18_one_binding_per_param (p : Pat) (sch : Option Bytes) (path : Bytes) (r : KV)
+    (hs : p.structOk = true) (h : p.unapplyUri sch path = some r) : r.length = p.params.length := by
+  simp only [Pat.structOk, Bool.and_eq_true] at hs
+  exact one_binding_of_nodup p sch path r hs.2 h
+
+/-- Regression for F12c: `/:id/:%69d` is rejected (offset 6 = start of the second name). -/
+example : (parsePattern [47, 58, 105, 100, 47, 58, 37, 54, 57, 100]).toOption = none ∧
+    (match parsePattern [47, 58, 105, 100, 47, 58, 37, 54, 57, 100] with | .error n => n | .ok _ => 0) = 6 := by
+  decide
+
+example : exPat.structOk = true := by decide
 
 /-! ## The ambiguity check is complete -/
 
 def Pat.litsNonempty (p : Pat) : Bool := p.segs.all Seg.litNonempty     -- guaranteed by `RoutePattern::parse`
-def Pat.litsNormal (p : Pat) : Bool := p.segs.all Seg.litNormal         -- no `%XX` escape inside a literal
 
-/-- The full statement: whenever one URI is matched by two patterns, `are_ambiguous` reports the pair.
-**False of the current code** (F12): see `C18_ambiguity_complete_fails`. -/
-def C18_ambiguity_complete : Prop :=
-  ∀ (p q : Pat) (sch : Option Bytes) (path : Bytes) (r1 r2 : KV),
-    p.litsNonempty = true → q.litsNonempty = true →
-    p.unapplyUri sch path = some r1 → q.unapplyUri sch path = some r2 → areAmbiguous p q = true
-
-/-- F12: `/a%62` and `/ab` both match `/ab`, and `are_ambiguous` says no — it compares the raw literal text while
-matching compares percent-decoded text. -/
-theorem C18_ambiguity_complete_fails : ¬ C18_ambiguity_complete := by
-  intro h
-  have := h ⟨none, true, [.lit [97, 37, 54, 50]]⟩ ⟨none, true, [.lit [97, 98]]⟩ none [47, 97, 98] [] []
-    (by decide) (by decide) (by decide) (by decide)
-  exact absurd this (by decide)
-
-/-- The witness at the level of the pattern text. -/
-example : (parsePattern [47, 97, 37, 54, 50]).toOption = some ⟨none, true, [.lit [97, 37, 54, 50]]⟩ ∧
-    (parsePattern [47, 97, 98]).toOption = some ⟨none, true, [.lit [97, 98]]⟩ := by decide
-
-/-- What holds today: the check is complete for patterns whose literals contain no percent escape. -/
-theorem C18_ambiguity_complete_partial (p q : Pat) (sch : Option Bytes) (path : Bytes) (r1 r2 : KV)
+/-- Whenever one URI is matched by two patterns, `are_ambiguous` reports the pair (literals are compared
+percent-decoded by both the matcher and the check). -/
+theorem C18_ambiguity_complete (p q : Pat) (sch : Option Bytes) (path : Bytes) (r1 r2 : KV)
     (lp : p.litsNonempty = true) (lq : q.litsNonempty = true)
-    (np : p.litsNormal = true) (nq : q.litsNormal = true)
     (hp : p.unapplyUri sch path = some r1) (hq : q.unapplyUri sch path = some r2) :
     areAmbiguous p q = true := by
-  simp only [Pat.litsNonempty, Pat.litsNormal, List.all_eq_true] at lp lq np nq
-  unfold areAmbiguous
-  rw [ambSegs_eq_dec _ _ np nq]
-  exact areAmbiguousDec_complete p q sch path r1 r2 lp lq hp hq
-
-/-- With the comparison of `fixes/F12.patch` (percent-decoded literals) the check is complete without that
-restriction. -/
-theorem C18_ambiguity_complete_decoded (p q : Pat) (sch : Option Bytes) (path : Bytes) (r1 r2 : KV)
-    (lp : p.litsNonempty = true) (lq : q.litsNonempty = true)
-    (hp : p.unapplyUri sch path = some r1) (hq : q.unapplyUri sch path = some r2) :
-    areAmbiguousDec p q = true := by
   simp only [Pat.litsNonempty, List.all_eq_true] at lp lq
-  exact areAmbiguousDec_complete p q sch path r1 r2 lp lq hp hq
+  exact areAmbiguous_complete p q sch path r1 r2 lp lq hp hq
+
+/-- Regression for F12: `/a%62` and `/ab` both match `/ab`, and are now reported. -/
+example : (Pat.mk none true [.lit [97, 37, 54, 50]]).unapplyUri none [47, 97, 98] = some [] ∧
+    (Pat.mk none true [.lit [97, 98]]).unapplyUri none [47, 97, 98] = some [] ∧
+    areAmbiguous ⟨none, true, [.lit [97, 37, 54, 50]]⟩ ⟨none, true, [.lit [97, 98]]⟩ = true := by decide
 
 /-- `/:x/b` and `/a/:y` both match `/a/b`; reported. -/
 def exP : Pat := ⟨none, true, [.param [120], .lit [98]]⟩
 def exQ : Pat := ⟨none, true, [.lit [97], .param [121]]⟩
-example : exP.litsNonempty = true ∧ exP.litsNormal = true ∧ exQ.litsNormal = true ∧
+example : exP.litsNonempty = true ∧
     (exP.unapplyUri none [47, 97, 47, 98]).isSome = true ∧ (exQ.unapplyUri none [47, 97, 47, 98]).isSome = true ∧
     areAmbiguous exP exQ = true := by decide
 
@@ -202,7 +153,7 @@ theorem structOk_litsNonempty (p : Pat) (h : p.structOk = true) : p.litsNonempty
   simp only [Pat.structOk, Bool.and_eq_true, List.all_eq_true] at h
   simp only [Pat.litsNonempty, List.all_eq_true]
   intro s hs
-  have := h.1.1 s hs
+  have := h.1.1.1 s hs
   cases s <;> simp_all [Seg.structOk, Seg.litNonempty]
 
 theorem C18_parse_lits_nonempty (s : Bytes) (p : Pat) (h : parsePattern s = .ok p) : p.litsNonempty = true :=
@@ -214,9 +165,9 @@ theorem C18_parse_rtWf (s : Bytes) (p : Pat) (h : parsePattern s = .ok p) (hne :
   have hs := parsePattern_structOk s p h
   simp only [Pat.structOk, Bool.and_eq_true, List.all_eq_true] at hs
   simp only [Pat.rtWf, Bool.and_eq_true, List.all_eq_true, Bool.not_eq_eq_eq_not, Bool.not_true]
-  refine ⟨⟨by simpa using hne, ?_⟩, hs.1.2⟩
+  refine ⟨⟨by simpa using hne, ?_⟩, hs.1.1.2⟩
   intro sg hsg
-  have h1 := hs.1.1 sg hsg
+  have h1 := hs.1.1.1 sg hsg
   cases sg with
   | lit l => simp_all [Seg.structOk, Seg.rtOk]
   | param n =>
@@ -241,23 +192,22 @@ def C18_render_parse_open : Prop :=
 
 /-! ## A server that accepted its routes resolves every URI to at most one agent definition -/
 
-/-- Full statement: if `PlaneBuilder::build` accepts the routes then no URI is matched by two of them.
-**False of the current code** (F12). -/
-def C18_route_unique : Prop :=
-  ∀ (ps : List Pat), buildOk ps = true → (∀ p ∈ ps, p.litsNonempty = true) →
-    ∀ (sch : Option Bytes) (path : Bytes) (i j : Nat) (p q : Pat), ps[i]? = some p → ps[j]? = some q → i ≠ j →
-      ∀ r, p.unapplyUri sch path = some r → q.unapplyUri sch path = none
+/-- The property at the level of the pattern *texts*: two accepted patterns that both match a route string are
+reported ambiguous. -/
+theorem C18_ambiguity_complete_parsed (s1 s2 route : Bytes) (p q : Pat) (r1 r2 : KV)
+    (h1 : parsePattern s1 = .ok p) (h2 : parsePattern s2 = .ok q)
+    (hp : p.unapplyStr route = some r1) (hq : q.unapplyStr route = some r2) : areAmbiguous p q = true := by
+  unfold Pat.unapplyStr at hp hq
+  cases hu : parseUri route with
+  | none => simp [hu] at hp
+  | some u =>
+    simp only [hu] at hp hq
+    exact C18_ambiguity_complete p q u.scheme u.path r1 r2 (C18_parse_lits_nonempty s1 p h1)
+      (C18_parse_lits_nonempty s2 q h2) hp hq
 
-theorem C18_route_unique_fails : ¬ C18_route_unique := by
-  intro h
-  have := h [⟨none, true, [.lit [97, 37, 54, 50]]⟩, ⟨none, true, [.lit [97, 98]]⟩] (by decide) (by decide)
-    none [47, 97, 98] 0 1 _ _ rfl rfl (by decide) [] (by decide)
-  exact absurd this (by decide)
-
-/-- What holds today: with escape-free literals, an accepted route table matches every URI with at most one
-pattern, so `Routes::find_route` (first match) is *the* match. -/
-theorem C18_route_unique_partial (ps : List Pat) (hb : buildOk ps = true)
-    (hwf : ∀ p ∈ ps, p.litsNonempty = true ∧ p.litsNormal = true) (sch : Option Bytes) (path : Bytes)
+/-- If `PlaneBuilder::build` accepts the routes (no pair `i < j` ambiguous) then no URI is matched by two of them. -/
+theorem C18_route_unique (ps : List Pat) (hb : buildOk ps = true)
+    (hwf : ∀ p ∈ ps, p.litsNonempty = true) (sch : Option Bytes) (path : Bytes)
     (i j : Nat) (p q : Pat) (hi : ps[i]? = some p) (hj : ps[j]? = some q) (hij : i ≠ j) (r : KV)
     (hp : p.unapplyUri sch path = some r) : q.unapplyUri sch path = none := by
   have hpw := List.pairwise_iff_getElem.mp (buildOk_pairwise ps hb)
@@ -272,22 +222,24 @@ theorem C18_route_unique_partial (ps : List Pat) (hb : buildOk ps = true)
     rcases Nat.lt_or_gt_of_ne hij with hlt | hgt
     · have h1 := hpw i j hil hjl hlt
       rw [hpi, hqj] at h1
-      have h2 := C18_ambiguity_complete_partial p q sch path r r2 (hwf p hpm).1 (hwf q hqm).1 (hwf p hpm).2
-        (hwf q hqm).2 hp hq
+      have h2 := C18_ambiguity_complete p q sch path r r2 (hwf p hpm) (hwf q hqm) hp hq
       simp [h1] at h2
     · have h1 := hpw j i hjl hil hgt
       rw [hpi, hqj] at h1
-      have h2 := C18_ambiguity_complete_partial q p sch path r2 r (hwf q hqm).1 (hwf p hpm).1 (hwf q hqm).2
-        (hwf p hpm).2 hq hp
+      have h2 := C18_ambiguity_complete q p sch path r2 r (hwf q hqm) (hwf p hpm) hq hp
       simp [h1] at h2
 
-theorem C18_find_route_is_the_match_partial (ps : List Pat) (hb : buildOk ps = true)
-    (hwf : ∀ p ∈ ps, p.litsNonempty = true ∧ p.litsNormal = true) (sch : Option Bytes) (path : Bytes)
+/-- So `Routes::find_route` (first match) returns *the* match. -/
+theorem C18_find_route_is_the_match (ps : List Pat) (hb : buildOk ps = true)
+    (hwf : ∀ p ∈ ps, p.litsNonempty = true) (sch : Option Bytes) (path : Bytes)
     (i : Nat) (kv : KV) (h : findRoute ps sch path = some (i, kv)) :
     ∀ j q, ps[j]? = some q → j ≠ i → q.unapplyUri sch path = none := by
   obtain ⟨p, hp, hm⟩ := findRoute_some ps sch path i kv h
   intro j q hq hji
-  exact C18_route_unique_partial ps hb hwf sch path i j p q hp hq (fun e => hji e.symm) kv hm
+  exact C18_route_unique ps hb hwf sch path i j p q hp hq (fun e => hji e.symm) kv hm
+
+/-- Regression for F12 at plane level: `[/a%62, /ab]` is rejected by `build`. -/
+example : buildOk [⟨none, true, [.lit [97, 37, 54, 50]]⟩, ⟨none, true, [.lit [97, 98]]⟩] = false := by decide
 
 example : buildOk [exP, exQ] = false ∧ buildOk [exP, ⟨none, true, [.lit [97], .lit [99]]⟩] = true ∧
     findRoute [exP, ⟨none, true, [.lit [97], .lit [99]]⟩] none [47, 97, 47, 99] = some (1, []) := by decide
